@@ -170,6 +170,20 @@ CLAIMED = {
         ref="DESIGN.md §6 C11",
         technique="Lean 4 proof (target round trip by mutual structural induction, decide over regenerated tables) + protobuf-equality correspondence",
     ),
+    "C05": dict(
+        text="Proved in Lean for every namespace, base name and length limit: the name flatname returns is not in the namespace it was told "
+        "to avoid; it is the joined base name followed by underscores only, every shorter variant being taken; it fails only when base name "
+        "plus one underscore per name to avoid would exceed the limit (a clash is resolved by a fresh name or by raising, never by "
+        "capture); inserting under it keeps every existing name. That every call site (create_source, replace_noconn named or not, "
+        "replace_bundle_inst, array elements, instance-bundle members) passes the live namespace, and that designer objects keep their "
+        "bindings and connections, is decided by correspondence: designer names are renamed to exactly the names the elaborator would "
+        "invent for that design (and trailing-underscore variants); the package must keep unique names (Lean WFpkg), keep every designer "
+        "signal and instance, and have the same name-free net partition as the friendly-named design.",
+        note="Connectivity is compared on name-free descriptors (kind, port, bit, depth), which detects merged / split nets but not a swap "
+        "between two identical devices. Rejection of a renamed design is accepted (resolved by raising).",
+        ref="DESIGN.md §6 C05",
+        technique="Lean 4 proof (freshness, shape, totality by pigeonhole of the flatname loop) + adversarial-name differential correspondence",
+    ),
 }
 NOT_YET = {}
 
